@@ -48,7 +48,11 @@ FI(f) == CHOOSE i \in 1..Len(FormSeq) : FormSeq[i] = f
 StrataCases ==
     { [T |-> T, kind |-> "mm", form |-> f, M |-> s[1], K |-> s[2], N |-> s[3], stratum |-> "ladder"] :
         s \in StrataShapes \cup SpecialShapes, T \in {"f64", "f32", "i32", "i64"}, f \in {"eager", "t_add", "t_assign"} }
-StrataKeep(x) == Dense = 1 \/ Hash(x.M * 400 + x.K * 20 + x.N, TI(x.T), FI(x.form), 1) % 3 = 0 \/ (x.form = "t_add" /\ x.T \in {"f64", "i32"})
+\* Dense = 1 (thorough): the full strata product, of which every shape is kept for two (type, form) combinations (rotating with the
+\* shape) and one in ten of the others
+StrataKeep(x) == LET h == Hash(x.M * 400 + x.K * 20 + x.N, TI(x.T), FI(x.form), 1) IN
+                 IF Dense = 1 THEN h % 10 = 0 \/ (TI(x.T) * 3 + FI(x.form)) % 6 = (x.M + x.K + x.N) % 6
+                 ELSE h % 3 = 0 \/ (x.form = "t_add" /\ x.T \in {"f64", "i32"})
 
 Cases == { x \in BoxCases : Keep(x, TI(x.T), FI(x.form)) } \cup { x \in StrataCases : StrataKeep(x) }
 
